@@ -417,7 +417,7 @@ func (c *fctx) globalFacts(g *ssa.Global, st *state) {
 			c.region(&state{h: map[string]string{}}, key, "Int")
 			if !c.used["global-fact:"+key] {
 				c.used["global-fact:"+key] = true
-				c.assume(fmt.Sprintf("(= %s %s)", init, cv))
+				c.assumeGlobal(fmt.Sprintf("(= %s %s)", init, cv))
 			}
 		}
 		return
@@ -436,7 +436,7 @@ func (c *fctx) globalFacts(g *ssa.Global, st *state) {
 					c.used["global-fact:"+key] = true
 					fname := q("f.reSource")
 					c.S.declareOnce(fmt.Sprintf("(declare-fun %s (%s) Str)", fname, srt))
-					c.assume(fmt.Sprintf("(= (%s %s) %s)", fname, init, c.S.StrLit(pat)))
+					c.assumeGlobal(fmt.Sprintf("(= (%s %s) %s)", fname, init, c.S.StrLit(pat)))
 				}
 			}
 		}
@@ -450,7 +450,7 @@ func (c *fctx) globalFacts(g *ssa.Global, st *state) {
 			c.region(&state{h: map[string]string{}}, key, "Iface")
 			if !c.used["global-fact:"+key] {
 				c.used["global-fact:"+key] = true
-				c.assume(fmt.Sprintf("(not (= %s nilI))", init))
+				c.assumeGlobal(fmt.Sprintf("(not (= %s nilI))", init))
 			}
 		}
 		return
@@ -464,11 +464,11 @@ func (c *fctx) globalFacts(g *ssa.Global, st *state) {
 	fact := fmt.Sprintf("(not (= %s nilI))", init)
 	if !c.used["global-fact:"+key] {
 		c.used["global-fact:"+key] = true
-		c.assume(fact)
+		c.assumeGlobal(fact)
 		// sentinel errors created by distinct errors.New / fmt.Errorf calls are distinct values
 		if c.P.GlobalInitFresh(g) {
 			for _, o := range c.freshGlobals {
-				c.assume(fmt.Sprintf("(not (= %s %s))", init, o))
+				c.assumeGlobal(fmt.Sprintf("(not (= %s %s))", init, o))
 			}
 			c.freshGlobals = append(c.freshGlobals, init)
 		}
